@@ -35,9 +35,15 @@ BAD_MEMBERS = ["B", "X", "Z", "J", "O", "U", "1", "0", "*", "-", " ", "", "DE", 
 def cases(tier, seed):
     rng = gen.sub_rng(seed, ID)
     fixed = ["MDVFMKGLSKAKEGVVAAAEKTKQGVAEAAGKTKEGVLYVGSKTKEGVVHGVATVAEKTKEQVTNVGGAVVTGVTAVAQKTVEGAGSIAAATGFVKKDQLGKNEEGAPQEGILEDMPVDPDNEAYEMPSEEGYQDYEPEA",
-             "PPPPPEEEEEGGGGGKKKKKWWWWW", "W", "P", "GSGSGS", "EKEKEKEKPPPPGGGGWWHH"]
+             "PPPPPEEEEEGGGGGKKKKKWWWWW", "W", "P", "GSGSGS", "EKEKEKEKPPPPGGGGWWHH", "EQQQGNQDR", "KQQQQQQQE", "GSGSGSGSGSGSGSGSGSGSGSKE",
+             "QQQQQQQQQQQQQQQQQQQQQQQPQQQQQQQQQQQQQQQQQQQQQQQQQQQQQQQQQQQQQQQQQQQQQQQQQQQQQQQQQD", "EEQGGQQE", "PGGGGGGP", "DGSGSGSGR", "KKGGGGGK"]
     for i in range(NSEQ[tier]):
         s = fixed[i] if i < len(fixed) else gen.rand_seq(rng, hi=HI[tier] if i % 3 == 0 else 40)
+        if i >= len(fixed) and i % 6 == 0:
+            # a short linker of 'other' residues with few P/E/D/K/R at the ends: the recoded ratio tends to fall in (1, 1.1)
+            n = rng.randint(5, 9)
+            core = "".join(rng.choice("QGSN") for _ in range(n))
+            s = rng.choice("EDKRP") + core[: n // 2] + rng.choice(["", "", "P", "E"]) + core[n // 2:] + "".join(rng.choice("EDKRP") for _ in range(rng.randint(1, 2)))
         yield {"s": s, "o": rng.randrange(1 << 30)}
 
 
@@ -65,6 +71,9 @@ def variant(rng, grp):
         g.append(rng.choice(g))
     g = [c.lower() if rng.random() < 0.5 else c for c in g]
     kind = rng.random()
+    if kind < 0.12 and g:
+        import numpy
+        return list(numpy.array(g))           # an ordinary list whose letters came out of a numpy array (numpy.str_ objects)
     if kind < 0.25:
         return tuple(g)
     if kind < 0.4:
